@@ -176,8 +176,8 @@ class World:
         self.steps += 1
         self.jumps = 0
         st.sem.release()
-        if not self.driver_sem.acquire(timeout=60):
-            raise HarnessError(f"thread {st} did not reach a scheduling point within 60 s wall time")
+        if not self.driver_sem.acquire(timeout=600):
+            raise HarnessError(f"thread {st} did not reach a scheduling point within 600 s wall time")
 
     def default_choice(self, en):
         return self.last if self.last in en else en[0]
@@ -234,7 +234,7 @@ class World:
             if not t.done:
                 self.current = t
                 t.sem.release()
-                if not self.driver_sem.acquire(timeout=60):
+                if not self.driver_sem.acquire(timeout=600):
                     raise HarnessError(f"thread {t} did not unwind at teardown")
         for t in self.threads:
             t.os_thread.join(10)
